@@ -341,9 +341,9 @@ class Decision(Stream):
         out = [
             # known defect witnesses (in the property's domain only while listed open in known_findings.json)
             {"m": [d("m", None, True), d("m", None, True)], "home": None, "arg": "m=3", "witness": "dup-path"},
-            {"m": [d("a", None, False, True)], "home": None, "arg": "a=2", "witness": "empty-master"},
             {"m": [s("x", [d("b", 200)]), s("y", [d("b", 200)]), s("z", [d("ab")])], "home": None, "arg": "b=5", "witness": "outsider"},
             # regression cases
+            {"m": [d("a", None, False, True)], "home": None, "arg": "a=2"},  # no active definition: refused as unknown (was a ValueError)
             {"m": fix, "home": "s", "arg": "a=3"},
             {"m": fix, "home": "s", "arg": "b.a = 3 4 'x y'"},
             {"m": fix, "home": None, "arg": "a=3"},
@@ -473,9 +473,6 @@ class Decision(Stream):
         if o[0] == "argparse-error":
             return None if o[1] == ["argparse-error"] else "argument does not parse but process_arg gave %r" % (o[1],)
         sources, warned, end, result, _t = o
-        if not targets:
-            return None if end == ["unknown"] or (not sources and end == ["noeffect"]) else \
-                "[empty-master] no parameter at all: expected refusal as unknown, got %r" % (end,)
         chosen, exp_warned, exp_end = [], [], None
         for path, words in sources:
             d = expected_decision(case["home"], path, targets, levels)
@@ -509,12 +506,10 @@ class Decision(Stream):
         m, targets, levels, _ = self.master(case["m"])
         if m is None:
             return True
-        if not targets:
-            return False  # finding 'empty-master' (proposed F19): ValueError instead of a refusal on a master without parameters
         if len(set(targets)) != len(targets):
             return False  # F13: duplicate paths in target_paths
-        if max(levels) - min(levels) >= 100:
-            return False  # finding 'outsider' (proposed F20): tie-break lets a worse match win when levels differ by >= 100
+        if levels and max(levels) - min(levels) >= 100:
+            return False  # F20: tie-break lets a worse match win when levels differ by >= 100
         return True
 
     def key(self, case, o):
@@ -725,7 +720,7 @@ class ProcessArgs(Stream):
 
 # ----------------------------------------------------------------------------- known findings
 # known_findings.json entries are recognised by their "signature" field, else by id
-FINDING_KINDS = {"F13": "dup-path", "F19": "empty-master", "F20": "outsider"}
+FINDING_KINDS = {"F13": "dup-path", "F20": "outsider"}
 
 
 def finding_kind(finding):
@@ -743,8 +738,6 @@ def match_finding(finding, failure):
         # the same path listed twice among the targets; a full-path argument refused as ambiguous between equals
         return (what.startswith("[dup-path]") and end[0] == "ambiguous" and len(end[1]) > 1 and len(set(end[1])) == 1
                 and targets.count(end[1][0]) > 1)
-    if kind == "empty-master":
-        return what.startswith("[empty-master]") and targets == [] and end == ["crash", "other:ValueError"]
     if kind == "outsider":
         return what.startswith("[outsider]") and end[0] == "ok" and len(obs[1]) > 0
     return False
